@@ -184,7 +184,8 @@ def rand_script(rng, sc, ci, kind, fsm, allow_hold, allow_nested, maxlen=4):
         act = None
         if allow_nested and rng.random() < 0.2:
             tgt = rng.randrange(len(sc.allcmds()))
-            act = rng.choice(["trig:%d:r" % tgt, "trig:%d:t" % tgt, "hexit:0", "hexit:-1", "q:busy", "q:hold", "q:full"])
+            act = rng.choice(["trig:%d:r" % tgt, "trig:%d:t" % tgt, "hexit:0", "hexit:-1", "q:busy", "q:hold", "q:full",
+                              "qproc:1;q:full", "qproc:1;trig:%d:r" % tgt, "qproc:1;qbuf:%d:n" % tgt])
         if rng.random() < 0.15:
             c = sc.allcmds()[ci]
             if c.vars:
